@@ -254,6 +254,30 @@ LIBS += [
 ]
 
 
+LIBS += [
+    # different C++ functions given the same API name; names that differ by a leading underscore; a data member whose
+    # accessor has the name of a user method
+    (HEAD % "" + """- decl: void setInt(int v) +name(set)
+- decl: void setDouble(double v) +name(set)
+- decl: void setText(const char *v) +name(set)
+""", "void setInt(int v); void setDouble(double v); void setText(const char *v);"),
+    (HEAD_PL % "" + """- decl: void reset()
+- decl: void _reset()
+- decl: class Timer
+  declarations:
+  - decl: void start()
+  - decl: void _start()
+""", "void reset(); void _reset(); class Timer { public: void start(); void _start(); };"),
+    (HEAD % "" + """- decl: class Store
+  declarations:
+  - decl: int count
+  - decl: double scale
+  - decl: int getCount(int which)
+  - decl: void setScale(double value, int which)
+""", "class Store { public: int count; double scale; int getCount(int which); void setScale(double value, int which); };"),
+]
+
+
 # recorded known finding (replayed by the check): overloaded methods of a class template
 KNOWN_TEMPLATE_OVERLOAD = {"yaml": HEAD % "" + """- decl: template<typename T> class Box
   cxx_template:
